@@ -36,9 +36,9 @@ def splitPath (p : String) : List String := (splitDot p.toList).map String.ofLis
 def stripIdx (s : List Char) : Option (List Char × Nat) :=
   match s.reverse with
   | ']' :: r =>
-    match r.span isDigit with
-    | (d :: ds, '[' :: p) => some (p.reverse, digitsToNat (d :: ds).reverse)
-    | _ => none
+    match r.takeWhile isDigit, r.dropWhile isDigit with
+    | d :: ds, '[' :: p => some (p.reverse, digitsToNat (d :: ds).reverse)
+    | _, _ => none
   | _ => none
 
 def parseSegAux : Nat → List Char → List Nat → (List Char × List Nat)
